@@ -142,7 +142,7 @@ def itemHuge : Item → Bool
 def stateClauses (c : Core) : List String :=
   let tag (o : Option String) : List String := match o with | some e => [e] | none => []
   conservedAll c ++ tag (nodeLedger c) ++ tag (resOK c) ++ tag (lifecycleOK c) ++ tag (countersOK c) ++
-  tag (usageOK c) ++ tag (rootMaxOK c) ++
+  tag (usageOK c) ++ tag (idleOK c) ++ tag (rootMaxOK c) ++
   -- foreign allocations: occupied = Σ foreign allocations on the node, every one of them known to the partition
   tag (c.nodes.findSome? (fun n =>
     let fs := n.allocs.filter (·.foreign)
@@ -284,6 +284,20 @@ def malSi (st : MalSt) (pre post : Core) (j : Json) : Except String (MalSt × St
       | some app => app.items.any (fun x => x.key == a.key && x.bound && x.preempted && !(sameRes (resOf a.res) x.res))
       | none => false)
     | _ => false)
+  -- the release (any termination type; the only item of the request, nothing pending) of a bound allocation by key that makes its application idle (→ Completing) also
+  -- takes the application off its user's running applications (removeAllocationInternal: removeApp goes with CompleteApplication)
+  let stillTracked : List String := items.filterMap (fun i => match i with
+    | .release r =>
+      if r.key == "" then none else
+      (match pre.findApp r.app, post.findApp r.app with
+       | some a, some b =>
+         if items.length == 1 && isZero (some a.pending) &&
+            a.state != "Completing" && b.state == "Completing" && a.items.any (fun x => x.key == r.key && x.bound) &&
+            post.users.any (fun u => u.1 == b.user && u.2.any (fun e => e.apps.contains b.id))
+         then some s!"completing-still-tracked {b.id} {b.user}" else none
+       | _, _ => none)
+    | _ => none)
+  let newly := newly ++ (if sat then [] else stillTracked)
   let stateFails := newly.map (fun e =>
     if clauseId e == "I7r" || clauseId e == "I7t" then "C13.state." ++ clauseId e ++ " " ++ e
     else if clauseId e == "I11" && resizesPreempted then "C13.state.I11/resize " ++ e
